@@ -1051,6 +1051,8 @@ namespace bloch::compiler {
         std::unique_ptr<Expression> left = parsePrattExpression(0);
 
         if (match(TokenType::Equals)) {
+            // 'a = a = a = ...' nests to the right like any other construct: bound it.
+            DepthGuard depth(*this);
             std::unique_ptr<Expression> value = parseAssignmentExpression();
 
             if (auto varExpr = dynamic_cast<VariableExpression*>(left.get())) {
